@@ -183,3 +183,8 @@ class TagDomain(EventsMixin, Domain):
   def on_augassign(self, kind, target, op, val, node, st):
     return self.flow(self._u(target, val))
 
+  def on_store_subscript(self, target, idx, val, node, st):
+    # weak update: the array now also depends on what was written into it
+    # and on where it was written
+    return self._u(target) | self.flow(self._u(val, *self._idx_vals(idx)))
+
